@@ -48,7 +48,13 @@ def run_history(h, timeout=120):
 
 def run_many(hs, workers=14, timeout=120):
     with ThreadPoolExecutor(max_workers=workers) as ex:
-        return list(ex.map(lambda h: run_history(h, timeout), hs))
+        res = list(ex.map(lambda h: run_history(h, timeout), hs))
+    # a watchdog verdict under load is not a verdict: a history that ended in HANG (exit 3) or in the process timeout is run
+    # again alone; only what hangs then is reported as hanging
+    for i, (r, rc, err) in enumerate(res):
+        if rc in (3, 124):
+            res[i] = run_history(hs[i], timeout)
+    return res
 
 
 # ---------------------------------------------------------------- generation
